@@ -22,7 +22,15 @@ package main
 //   job-error    call k of the job subprocess fails with EIO (no kill)
 //   inproc-error Job.Run called directly in-process, call k fails with EIO, then normal cycles
 // followed by later cycles (virtual clock +2h each) until the listing stops changing (<=3).
-// Oracle: DuckDB scan of every *.parquet of the measurement, before vs after.
+// Oracle: DuckDB scan of every *.parquet of the measurement, before vs after. For partitions with
+// dedup metadata the key of a row is (every tag declared by ANY file of the measurement, time): rows
+// that differ in any such tag must both survive (partitions tag*: the files disagree on arc:tags).
+//
+// The thorough tier is the full product (all modes x every call, on every partition). The quick
+// tier is a smaller, completely enumerated space (each job launch costs ~0.5 CPU-seconds and a
+// scenario launches ~5 jobs): the crash-free run of every quick partition, every call for one
+// representative partition per class and one call per file step kind for the other shapes of the
+// tag-disagreement class; see c09Part.Quick and the evidence "rule".
 
 import (
 	"context"
@@ -198,9 +206,9 @@ type c09Part struct {
 	MaxBatch int
 	SortKeys []string
 	// Quick: how the partition takes part in the quick tier ("" = thorough only):
-	//   full      crash-free + job-kill at EVERY fault point of the first hourly job + node-crash at one point per step kind
+	//   full      crash-free + job-kill at every storage mutation of the first hourly job + node-crash at one point per file step kind
 	//   storage   crash-free + job-kill at every storage mutation of the first hourly job (no phase kills)
-	//   kinds     crash-free + job-kill at one fault point per distinct storage step kind of the first hourly job
+	//   kinds     crash-free + job-kill at one fault point per distinct file step kind of the first hourly job
 	//   crashfree crash-free only
 	Quick string
 }
@@ -317,8 +325,17 @@ func c09Parts() []c09Part {
 			{r("time", 800, "host", "h1"), r("time", 15, "host", "a")},
 		}
 	}
+	// a lone [host] file in the NEXT hour: the hourly tier leaves it alone (fewer than MinFiles), so the daily job merges it
+	// RAW with the compacted outputs of hour 5: rows of an output that differ only in region meet a newest input
+	// that declares only host
+	lone := func(p c09Part) c09Part {
+		i := len(p.Files)
+		p.Files = append(p.Files, c09File{Hour: 6, Cols: []string{"time", "host", "v"}, Tags: h_,
+			Rows: []map[string]any{r("time", 500, "host", "h1", "v", float64(100*i)), r("time", 16, "host", "a", "v", float64(100*i+1))}})
+		return p
+	}
 	// tag set SHRINKS: older files [host,region], the newest file of each batch [host] (a dropped tag / a second writer)
-	ps = append(ps, tagPart("tagshrink6", "storage", 4, shrinkTags, shrinkRows()))
+	ps = append(ps, lone(tagPart("tagshrink7", "storage", 4, shrinkTags, shrinkRows())))
 	// tag set GROWS: older files [host], newer files [host,region] (ordinary schema evolution)
 	ps = append(ps, tagPart("taggrow6", "kinds", 4, [][]string{h_, h_, hr, hr, hr, hr}, [][]map[string]any{
 		{r("time", 500, "host", "h1"), r("time", 10, "host", "a")},
@@ -348,7 +365,7 @@ func c09Parts() []c09Part {
 	}))
 	// the shrinking partition cut into batches of 2: {0,1} agree, {2,3} and {4,5} disagree; the rows that differ only
 	// in region now sit in DIFFERENT batches and meet only in the daily job, which merges three outputs with two tag sets
-	ps = append(ps, tagPart("tagshrink6b2", "crashfree", 2, shrinkTags, shrinkRows()))
+	ps = append(ps, lone(tagPart("tagshrink7b2", "crashfree", 2, shrinkTags, shrinkRows())))
 	{
 		p := c09Part{Name: "nulltags4", MaxBatch: 2}
 		for i := 0; i < 4; i++ {
@@ -462,14 +479,61 @@ func (p *c09Part) dedup() bool {
 
 // tagsDiffer: at least two files of the partition declare different arc:tags sets (a file without the key
 // counts as a different set when another file has one).
-func (p *c09Part) tagsDiffer() bool {
+func (p *c09Part) tagsDiffer() bool { return p.tagShape() != "" }
+
+// tagShape classifies HOW the arc:tags declarations of the files (in listing order) disagree; "" = they agree.
+//   with-untagged  some file has no arc:tags while another has
+//   grow           the newest file declares the union (tags were only ever added)
+//   disjoint       two files declare sets of which neither contains the other
+//   shrink         otherwise: the sets are nested and the newest file declares fewer tags than an older one
+func (p *c09Part) tagShape() string {
+	union := p.tagUnion()
+	if len(union) == 0 {
+		return ""
+	}
 	seen := map[string]bool{}
+	var sets [][]string
+	untagged := false
 	for _, f := range p.Files {
+		if len(f.Tags) == 0 {
+			untagged = true
+			continue
+		}
 		t := append([]string{}, f.Tags...)
 		sort.Strings(t)
-		seen[strings.Join(t, ",")] = true
+		if !seen[strings.Join(t, ",")] {
+			seen[strings.Join(t, ",")] = true
+		}
+		sets = append(sets, t)
 	}
-	return len(seen) > 1 && len(p.tagUnion()) > 0
+	switch {
+	case untagged:
+		return "with-untagged"
+	case len(seen) == 1:
+		return ""
+	case strings.Join(sets[len(sets)-1], ",") == strings.Join(union, ","):
+		return "grow"
+	}
+	sub := func(a, b []string) bool {
+		in := map[string]bool{}
+		for _, x := range b {
+			in[x] = true
+		}
+		for _, x := range a {
+			if !in[x] {
+				return false
+			}
+		}
+		return true
+	}
+	for i := range sets {
+		for j := range sets {
+			if !sub(sets[i], sets[j]) && !sub(sets[j], sets[i]) {
+				return "disjoint"
+			}
+		}
+	}
+	return "shrink"
 }
 
 func (p *c09Part) tagUnion() []string {
@@ -854,12 +918,15 @@ func (e *c09Env) judge(s *c09Scn, at string, o *c09Obs, exact bool) {
 		} else {
 			shape += ",plain"
 		}
-		if e.part.tagsDiffer() {
-			shape += ",tagsets-differ"
+		if ts := e.part.tagShape(); ts != "" {
+			shape += ",tagsets-differ:" + ts
 		}
 		sig := strings.Join([]string{kind, at, s.Mode, s.Job, s.Label, shape}, "|")
 		if s.Mode == "crash-free" {
-			e.cfSigs[kind] = sig
+			if e.cfSigs[kind] == "" {
+				e.cfSigs[kind] = sig
+			}
+			sig = e.cfSigs[kind]
 			desc = fmt.Sprintf("%s [no fault needed: partition %s, crash-free cycles]", desc, s.Part)
 		} else if cf := e.part.cfSigs[kind]; cf != "" {
 			// minimisation: the crash-free run of this partition already shows this kind of violation, so the fault is
@@ -869,7 +936,11 @@ func (e *c09Env) judge(s *c09Scn, at string, o *c09Obs, exact bool) {
 		} else {
 			desc = fmt.Sprintf("%s [smallest way to see it: partition %s, %s at call %d (%s %s)]", desc, s.Part, s.Mode, s.Fault.K, s.Op.Kind, filepath.Base(s.Op.Path))
 		}
-		e.w.run.Violate(sig, desc, map[string]any{"scenario": s, "observed_at": at, "rows": c09Few(rows), "files_now": o.Files,
+		var fileTags []string
+		for i, f := range e.part.Files {
+			fileTags = append(fileTags, fmt.Sprintf("file %d (hour %02d): arc:tags=%s dedup_time=%v", i, f.Hour, strings.Join(f.Tags, ","), f.DedupTime))
+		}
+		e.w.run.Violate(sig, desc, map[string]any{"scenario": s, "observed_at": at, "rows": c09Few(rows), "files_now": o.Files, "input_files": fileTags,
 			"rows_before": b.Total, "rows_now": o.Total, "jobs": c09Brief(e.jobLogs())})
 	}
 	if len(o.Bad) > 0 {
@@ -1155,13 +1226,17 @@ func verifC09() {
 		os.MkdirAll(filepath.Join(scratch, "rec"), 0o700)
 		os.Setenv("VERIF_C09_SCRATCH", scratch)
 		os.Setenv("VERIF_C09_PHASE", "record")
+		t0 := time.Now()
 		c1, _, ok1 := run.SpawnShards(min(16, len(parts)))
+		recordWall := time.Since(t0).Seconds()
 		scns := c09BuildScenarios(run, parts, scratch)
 		b, _ := json.Marshal(scns)
 		os.WriteFile(filepath.Join(scratch, "scenarios.json"), b, 0o600)
 		os.Setenv("VERIF_C09_PHASE", "enumerate")
 		os.MkdirAll(filepath.Join(scratch, "claim"), 0o700)
-		c2, samples, ok2 := run.SpawnShards(max(1, min(16, len(scns))))
+		// more workers than CPUs: each worker is a strictly sequential chain of short-lived processes, and on a box
+		// shared with other checks the extra workers keep the run from being starved
+		c2, samples, ok2 := run.SpawnShards(max(1, min(24, len(scns))))
 		for k, v := range c1 {
 			c2[k] += v
 		}
@@ -1173,6 +1248,8 @@ func verifC09() {
 			delete(c2, fmt.Sprintf("done#%d", i))
 		}
 		c2["scenarios_planned"] = int64(len(scns))
+		run.Coverage["wall_s_crash_free_phase"] = recordWall
+		run.Coverage["wall_s_fault_phase"] = time.Since(t0).Seconds() - recordWall
 		c09Report(run, parts, done, c2, samples, ok1 && ok2 && len(done) == len(scns))
 		return
 	}
@@ -1209,8 +1286,12 @@ func verifC09() {
 		// is busy with something else does not hold the others up; which worker runs a scenario has no influence on it
 		for i := range scns {
 			if run.TimeUp() {
-				complete = false
-				break
+				// capped: the run is incomplete only if a scenario is left that nobody has taken
+				if _, err := os.Stat(filepath.Join(scratch, "claim", strconv.Itoa(i))); err != nil {
+					complete = false
+					break
+				}
+				continue
 			}
 			f, err := os.OpenFile(filepath.Join(scratch, "claim", strconv.Itoa(i)), os.O_CREATE|os.O_EXCL|os.O_WRONLY, 0o600)
 			if err != nil {
@@ -1341,7 +1422,7 @@ func c09BuildScenarios(run *ev.Run, parts []c09Part, scratch string) []c09Scn {
 			ev.Unbound("C09: no hourly job recorded for " + p.Name)
 		}
 		targets = append(targets, hourly[0])
-		if !run.Quick() && (p.Name == "plain6" || p.Name == "tags6dup" || p.Name == "twohours" || p.Name == "plain12") {
+		if !run.Quick() && (p.Name == "plain6" || p.Name == "tags6dup" || p.Name == "twohours" || p.Name == "plain12" || p.Name == "tagshrink7") {
 			if len(hourly) > 1 {
 				targets = append(targets, hourly[1])
 			}
@@ -1373,13 +1454,48 @@ func c09BuildScenarios(run *ev.Run, parts []c09Part, scratch string) []c09Scn {
 			}
 			return k
 		}
-		allModes := !run.Quick() || p.Name == "plain6"
+		// one fault point per distinct FILE step kind: the first call with each step label that creates, writes, renames or
+		// deletes a file of the store (directory mkdir/rmdir calls are not file steps), and the last input delete
+		kinds := func(ops []vos.Op) map[int]bool {
+			k := map[int]bool{}
+			seen := map[string]bool{}
+			lastDel := -1
+			for i, op := range ops {
+				lab := c09RecLabel(op)
+				if c09Phase(lab) || op.Kind == "mkdir" || lab == "empty-dir-remove" {
+					continue
+				}
+				if !seen[lab] {
+					seen[lab], k[i] = true, true
+				}
+				if lab == "input-delete" {
+					lastDel = i
+				}
+			}
+			if lastDel >= 0 {
+				k[lastDel] = true
+			}
+			return k
+		}
+		// quick tier: which (mode, call, torn) of the first hourly job are fault points for this partition (see c09Part.Quick)
+		quickWants := func(md string, k int, lab string, torn bool, kd map[int]bool) bool {
+			switch p.Quick {
+			case "full":
+				return (md == "job-kill" && !c09Phase(lab)) || (md == "node-crash" && kd[k] && !torn)
+			case "storage":
+				return md == "job-kill" && !c09Phase(lab)
+			case "kinds":
+				return md == "job-kill" && kd[k] && !torn
+			}
+			return false
+		}
+		allModes := !run.Quick()
 		for ti, t := range targets {
 			job := fmt.Sprintf("%s-b%d", t.Tier, t.Batch)
 			if ti == 1 && t.Tier == "hourly" && t.Partition != targets[0].Partition {
 				job = "hourly-b1(second-partition)"
 			}
-			kp := keep(t.Ops)
+			kp, kd := keep(t.Ops), kinds(t.Ops)
 			for k, op := range t.Ops {
 				if !kp[k] {
 					continue
@@ -1395,20 +1511,21 @@ func c09BuildScenarios(run *ev.Run, parts []c09Part, scratch string) []c09Scn {
 					}
 				}
 				for _, md := range modes {
-					if run.Quick() && md != "job-kill" && c09Phase(lab) {
-						continue // quick: phase kills (storage untouched) only in the job-kill mode
-					}
 					s := base
 					s.Mode = md
 					s.Fault.Mode = "kill"
 					if md == "job-error" {
 						s.Fault.Mode = "fail"
 					}
-					out = append(out, s)
+					if !run.Quick() || quickWants(md, k, lab, false, kd) {
+						out = append(out, s)
+					}
 					if md != "job-error" && op.Kind == "write" && op.Len > 1 && (lab == "output-part-write" || lab == "manifest-tmp-write") {
 						s.Fault.Torn = op.Len / 2
 						s.Label = lab + "(torn)"
-						out = append(out, s)
+						if !run.Quick() || quickWants(md, k, lab, true, kd) {
+							out = append(out, s)
+						}
 					}
 				}
 			}
@@ -1416,7 +1533,7 @@ func c09BuildScenarios(run *ev.Run, parts []c09Part, scratch string) []c09Scn {
 		if allModes {
 			kp := keep(rec.Inproc)
 			for k, op := range rec.Inproc {
-				if kp[k] && !(run.Quick() && c09Phase(c09RecLabel(op))) {
+				if kp[k] {
 					out = append(out, c09Scn{Part: p.Name, Mode: "inproc-error", Label: c09RecLabel(op), Op: op, Job: rec.InJob, BatchFiles: rec.InN,
 						Fault: c09Fault{Tier: "hourly", Partition: targets[0].Partition, Batch: 1, K: k, Torn: -1, Mode: "fail"}})
 				}
@@ -1486,7 +1603,14 @@ func c09Report(run *ev.Run, parts []c09Part, scns []c09Scn, ctr map[string]int64
 	run.Coverage["distinct_nontrivial"] = ctr["nontrivial"]
 	var names []string
 	for _, p := range parts {
-		names = append(names, fmt.Sprintf("%s(files=%d,max_files_per_batch=%d)", p.Name, len(p.Files), p.MaxBatch))
+		n := fmt.Sprintf("%s(files=%d,max_files_per_batch=%d", p.Name, len(p.Files), p.MaxBatch)
+		if ts := p.tagShape(); ts != "" {
+			n += ",arc:tags differ:" + ts
+		}
+		if run.Quick() {
+			n += ",plan=" + p.Quick
+		}
+		names = append(names, n+")")
 	}
 	labels := map[string]int{}
 	modes := map[string]int{}
@@ -1494,7 +1618,19 @@ func c09Report(run *ev.Run, parts []c09Part, scns []c09Scn, ctr map[string]int64
 		labels[s.Label]++
 		modes[s.Mode]++
 	}
-	run.Coverage["rule"] = "one evaluation = one (partition, fault mode, target job, mutating file-system call k of that job [, half-length torn write for the manifest temp file and the uploaded .part]) executed on the real Manager/Job/ManifestManager/LocalBackend/DuckDB with real job subprocesses, followed by later cycles (+2h each) until the listing is stable (<=3), plus one crash-free run per partition (subprocess and in-process). Fault points = EVERY mutating call of LocalBackend made by the target job (manifest mkdir/temp create/write/rename, partition mkdir, .part create/write/rename, each input delete, manifest delete, empty-dir remove) and, as phase kills, the calls of package compaction on its temp directory (both mkdirs, the first and the last of the storage-neutral download calls, the cleanup) and NewLocalBackend's mkdir of the root. quick: phase kills only in job-kill mode; job-error/inproc-error only on partition plain6; target = first hourly job. thorough: all modes on all partitions, and for 4 partitions also the second hourly job and the first daily job as targets (job-kill). non-trivial = the job really reached the call and was killed / got EIO there (read from the job process's own log; otherwise the run is flagged); distinct because (partition, mode, job, k, torn) differ"
+	rule := "one evaluation = one (partition, fault mode, target job, mutating file-system call k of that job [, half-length torn write for the manifest temp file and the uploaded .part]) executed on the real Manager/Job/ManifestManager/LocalBackend/DuckDB with real job subprocesses, followed by later cycles (+2h each) until the listing is stable (<=3), plus one crash-free run per partition (all hourly batches and the daily job, then later cycles; thorough: also an in-process Job.Run). Fault points of a job: E = EVERY mutating call of LocalBackend made by it (manifest mkdir/temp create/write/rename, partition mkdir, .part create/write/rename, each input delete, manifest delete, empty-dir remove; torn variants of the two writes) plus, as phase kills, the calls of package compaction on its temp directory (both mkdirs, the first and the last of the storage-neutral download calls, the cleanup) and NewLocalBackend's mkdir of the root; S = E without the phase kills; K = one call per distinct FILE step kind = the first call of S with each step label that creates, writes, renames or deletes a file (manifest temp create/write/rename, .part create/write/rename, input delete, manifest delete; not the directory mkdir/rmdir calls) plus the last input delete, no torn variants. "
+	if run.Quick() {
+		byPlan := map[string][]string{}
+		for _, p := range parts {
+			byPlan[p.Quick] = append(byPlan[p.Quick], p.Name)
+		}
+		pl := func(k string) string { return strings.Join(byPlan[k], ", ") }
+		rule += "QUICK space (complete, not sampled): target = the first hourly job; crash-free run of all " + strconv.Itoa(len(parts)) + " quick partitions; plan 'full' (" + pl("full") + ": representative of partitions without dedup metadata, splittable batch of 4): job-kill x S and node-crash x K; plan 'storage' (" + pl("storage") + ": representative of the class 'files of one batch disagree on arc:tags', splittable batch of 4): job-kill x S; plan 'kinds' (" + pl("kinds") + ": the other shapes of that class): job-kill x K; plan 'crashfree' (" + pl("crashfree") + "): crash-free only. job-error and inproc-error, the phase kills, node-crash at every call, further target jobs and the other partitions are left to the thorough tier. "
+	} else {
+		rule += "THOROUGH space: job-kill, node-crash and job-error x E on the first hourly job of every partition, inproc-error x every call of an in-process Job.Run of that batch, and for 5 partitions also the second hourly job and the first daily job as targets (job-kill x E). "
+	}
+	rule += "non-trivial = the job really reached the call and was killed / got EIO there (read from the job process's own log; otherwise the run is flagged); distinct because (partition, mode, job, k, torn) differ. A violation kind that the crash-free run of a partition already shows is reported once, under the crash-free signature (the fault is not part of the minimal counterexample)"
+	run.Coverage["rule"] = rule
 	run.Coverage["samples"] = samples
 	run.Coverage["partitions"] = names
 	run.Coverage["fault_points_by_step"] = labels
@@ -1509,6 +1645,7 @@ func c09Report(run *ev.Run, parts []c09Part, scns []c09Scn, ctr map[string]int64
 	run.Assume("crash model: process crash of the job (SIGKILL) at a mutating file-system call: every completed call is visible, nothing later reaches the disk; torn writes for the manifest and the uploaded output (half length); power-loss reordering not modelled (LocalBackend never fsyncs)")
 	run.Assume("the wall clock of package compaction is virtual (overlay): cycles are 2h apart, every job process gets its own instant; name collisions caused by a coarse real clock are out of scope")
 	run.Assume("dedup partitions: the survivor of a duplicate (tags,time) key is unspecified and keys that stay uncollapsed (duplicates in different batches or split halves) are NOT judged; only 'at least one and at most as many rows per key as before, every row one of the inputs'; duplicate keys with a NULL tag are excluded from the generator")
+	run.Assume("partitions whose files disagree on arc:tags: the key of a row is (every tag declared by ANY file of the measurement, time), so two input rows that differ in any such tag must both survive; the generator lets a file carry a column that is a tag somewhere only if the file declares it itself (files without any arc:tags carry only the tag every tagged file declares), i.e. rows of a file that does not declare a tag are NULL in it; what compaction should do with a tag column carried as a plain field is not judged")
 	run.Assume("node-crash (job and parent die together) is enumerated for the first job of a partition only; for later jobs of the cycle only the job dies; one fault per scenario; LocalBackend only (no S3/Azure batch delete); OSS mode (no completion manifests, no edge-sync observers)")
 	run.Assume("the job subprocess is this harness binary: stdin JSON -> the real compaction.RunSubprocessJob -> stdout JSON; the ~45 lines of flag/JSON glue in cmd/arc runCompactSubcommand are mirrored, not executed (the arc binary needs seconds to start)")
 	os.RemoveAll(c09Scratch())
